@@ -84,4 +84,48 @@ theorem c19_gen_bucketRules_Match_eq (rr : List (Gen.C19.bucketRule α)) (h : In
       cases hm : (Rule.ofGen r).matches h
       · simpa using ih
       · simp
+
+/-- the zero `Value` of the translation (`new(Value)`, `var t Value`) -/
+def genZero : Gen.C19.Value α :=
+  { name := [], min := Num.ofNat 0, max := Num.ofNat 0, sum := Num.ofNat 0, n := 0, oldM := Num.ofNat 0,
+    newM := Num.ofNat 0, oldS := Num.ofNat 0, newS := Num.ofNat 0, dev := Num.ofNat 0, store := [] }
+
+private theorem avg_fold (name : List Nat) (xs : List (Gen.C19.Value α)) (t : Gen.C19.Value α)
+    (h : ∀ s ∈ xs, s.name = name) :
+    Gen.Rt.foldReturn xs t (fun t s =>
+      if (s.name != name) then Sum.inl (some (genZero : Gen.C19.Value α))
+      else Sum.inr { t with store := t.store ++ s.store }) =
+    Sum.inr { t with store := t.store ++ xs.flatMap (·.store) } := by
+  induction xs generalizing t with
+  | nil => simp [Gen.Rt.foldReturn]
+  | cons x rest ih =>
+    have hx : x.name = name := h x List.mem_cons_self
+    have hne : (x.name != name) = false := by simp [hx]
+    simp only [Gen.Rt.foldReturn, hne, Bool.false_eq_true, if_false]
+    rw [ih _ (fun s hs => h s (List.mem_cons_of_mem _ hs))]
+    simp [List.flatMap_cons, List.append_assoc]
+
+/-- **`AverageValue` as translated computes the model's `averageValue`** on values of one name (what `AverageStats`
+hands it: the values found under one key): it does not panic, and the result carries the stores of all arguments
+joined in argument order and zero everywhere else (nothing is computed before the next `Collect`) -/
+theorem c19_gen_AverageValue_eq (st : List (Gen.C19.Value α))
+    (h : ∀ s ∈ st, ∀ s' ∈ st, s.name = s'.name) :
+    (Gen.C19.AverageValue st).map Value.ofGen = some (averageValue (st.map Value.ofGen)) := by
+  cases st with
+  | nil => simp [Gen.C19.AverageValue, Gen.Rt.len, averageValue, Value.ofGen, Value.new, zero]
+  | cons a rest =>
+    have hlen : ¬ (Gen.Rt.len (a :: rest) < 1) := by simp [Gen.Rt.len]; omega
+    have hall : ∀ s ∈ a :: rest, s.name = a.name := fun s hs => h s hs a List.mem_cons_self
+    have hf := avg_fold a.name (a :: rest) (genZero : Gen.C19.Value α) hall
+    unfold genZero at hf
+    simp only [Gen.C19.AverageValue, hlen, decide_false, Bool.false_eq_true, if_false, Gen.Rt.idx, Int.toNat_zero,
+      List.getElem?_cons_zero, Int.lt_irrefl, hf]
+    simp [averageValue, Value.ofGen, Value.new, zero, List.flatMap_cons, List.map_cons, List.flatMap_map]
+
+/-- arguments of different names: the zero value (after the log line), whatever was joined before -/
+theorem c19_gen_AverageValue_mismatch (a b : Gen.C19.Value α) (hn : a.name ≠ b.name) :
+    Gen.C19.AverageValue [a, b] = some genZero := by
+  have h1 : (a.name != a.name) = false := by simp
+  have h2 : (b.name != a.name) = true := by simp; exact fun e => hn e.symm
+  simp [Gen.C19.AverageValue, Gen.Rt.len, Gen.Rt.idx, Gen.Rt.foldReturn, h1, h2, genZero]
 end C19
